@@ -38,26 +38,32 @@ def _get_leaf_tensors(tensors: Iterable[Tensor], excluded: Iterable[Tensor]) -> 
     if any([tensor.grad_fn is None for tensor in excluded]):
         raise ValueError("All `excluded` tensors should have a `grad_fn`.")
 
+    # A tensor is identified by the edge (grad_fn, output_nr) rather than by its grad_fn alone:
+    # several tensors (e.g. the outputs of unbind or split) can share the same grad_fn.
     accumulate_grads = _get_descendant_accumulate_grads(
-        roots={tensor.grad_fn for tensor in tensors},
-        excluded_nodes={tensor.grad_fn for tensor in excluded},
+        roots={(tensor.grad_fn, tensor.output_nr) for tensor in tensors},
+        excluded_edges={(tensor.grad_fn, tensor.output_nr) for tensor in excluded},
     )
     leaves = {g.variable for g in accumulate_grads}
 
     return leaves
 
 
-def _get_descendant_accumulate_grads(roots: set[Node], excluded_nodes: set[Node]) -> set[Node]:
+def _get_descendant_accumulate_grads(
+    roots: set[tuple[Node, int]], excluded_edges: set[tuple[Node, int]]
+) -> set[Node]:
     """
-    Gets the AccumulateGrad descendants of the specified nodes.
+    Gets the AccumulateGrad descendants of the specified edges.
 
-    :param roots: Root nodes from which the graph traversal should start.
-    :param excluded_nodes: Nodes excluded from the graph traversal.
+    :param roots: Root edges (node and index of one of its outputs) from which the graph traversal
+        should start.
+    :param excluded_edges: Edges (node and index of one of its outputs) that the graph traversal
+        should not go through.
     """
 
-    excluded_nodes = set(excluded_nodes)  # Re-instantiate set to avoid modifying input
     result = set()
-    nodes_to_traverse = deque(roots - excluded_nodes)
+    visited_nodes = {node for node, _ in roots - excluded_edges}
+    nodes_to_traverse = deque(visited_nodes)
 
     # This implementation more or less follows what is advised in
     # https://discuss.pytorch.org/t/autograd-graph-traversal/213658 and what was suggested in
@@ -68,9 +74,13 @@ def _get_descendant_accumulate_grads(roots: set[Node], excluded_nodes: set[Node]
         if node.__class__.__name__ == "AccumulateGrad":
             result.add(node)
 
-        for child, _ in node.next_functions:
-            if child is not None and child not in excluded_nodes:
+        for child, output_nr in node.next_functions:
+            if (
+                child is not None
+                and child not in visited_nodes
+                and (child, output_nr) not in excluded_edges
+            ):
                 nodes_to_traverse.append(child)  # Append to the right
-                excluded_nodes.add(child)
+                visited_nodes.add(child)
 
     return result
